@@ -40,55 +40,117 @@ def fracOf : Option Text → Text
   | none => []
   | some F => F
 
-/-- `value × 10^s` of the numeral `sg I . F` when `F.length ≤ s`:
-`± ofDigits (I ++ F) / 10^|F| × 10^s = ± ofDigits (I ++ F) × 10^(s - |F|)` -/
+/-- scaled value read from a fraction `R` that already fits the scale (`R.length ≤ s`):
+`± ofDigits (I ++ R) × 10^(s - |R|)` — what `SetString` computes from the trimmed fraction -/
+def trimmedValue (s : Nat) (sg I R : Text) : Int :=
+  signVal sg * ((ofDigits (I ++ R) * 10 ^ (s - R.length) : Nat) : Int)
+
+/-- `value × 10^s` of the numeral `sg I . F`, read from the first `s` fraction digits.  It is the exact
+value `± ofDigits (I ++ F) / 10^|F| × 10^s` when the digits beyond the `s`-th are zeros
+(`scaledValue_exact`); for `|F| ≤ s` it is `± ofDigits (I ++ F) × 10^(s - |F|)`. -/
 def scaledValue (s : Nat) (sg I F : Text) : Int :=
-  signVal sg * ((ofDigits (I ++ F) * 10 ^ (s - F.length) : Nat) : Int)
+  signVal sg * ((ofDigits (I ++ F.take s) * 10 ^ (s - (F.take s).length) : Nat) : Int)
+
+/-- every fraction digit beyond the `s`-th is a zero: the numeral is representable at scale `s` -/
+def ExcessZero (s : Nat) (F : Text) : Prop := AllZero (F.drop s)
+
+instance (s : Nat) (F : Text) : Decidable (ExcessZero s F) := inferInstanceAs (Decidable (AllZero (F.drop s)))
+
+/-- what `SetString` needs to find a digit: an integer digit, or a non-zero fraction digit
+(`"0.0"` and `".5"` have one, `".0"` and `"."` do not) -/
+def HasDigit (I F : Text) : Prop := I ≠ [] ∨ ¬ AllZero F
+
+instance (I F : Text) : Decidable (HasDigit I F) := inferInstanceAs (Decidable (I ≠ [] ∨ ¬ AllZero F))
+
+theorem hasDigit_iff (I F : Text) : I ++ trimRight0 F ≠ [] ↔ HasDigit I F := by
+  unfold HasDigit
+  rw [← trimRight0_eq_nil_iff]
+  simp only [ne_eq, List.append_eq_nil_iff, not_and]
+  constructor
+  · intro h; by_cases hI : I = []
+    · exact Or.inr (h hI)
+    · exact Or.inl hI
+  · rintro (h | h) hI
+    · exact absurd hI h
+    · exact h
 
 theorem signVal_natAbs {sg : Text} (n : Nat) : (signVal sg * (n : Int)).natAbs = n := by
   unfold signVal; split <;> simp
 
 theorem scaledValue_natAbs (s : Nat) (sg I F : Text) :
-    (scaledValue s sg I F).natAbs = ofDigits (I ++ F) * 10 ^ (s - F.length) := signVal_natAbs _
+    (scaledValue s sg I F).natAbs = ofDigits (I ++ F.take s) * 10 ^ (s - (F.take s).length) :=
+  signVal_natAbs _
 
-theorem setParts_complete (p s : Nat) {sg I F : Text} (hsg : IsSign sg) (hI : AllDig I) (hF : AllDig F)
-    (hne : I ++ F ≠ []) (hlen : F.length ≤ s) :
+/-- the scaled value is exact: `|scaledValue| / 10^s = ofDigits (I ++ F) / 10^|F|` (cross-multiplied) -/
+theorem scaledValue_exact (s : Nat) (sg I F : Text) (hz : ExcessZero s F) :
+    (scaledValue s sg I F).natAbs * 10 ^ F.length = ofDigits (I ++ F) * 10 ^ s := by
+  rw [scaledValue_natAbs]; exact take_value_exact s I F hz
+
+theorem scaledValue_short (s : Nat) (sg I F : Text) (h : F.length ≤ s) :
+    scaledValue s sg I F = signVal sg * ((ofDigits (I ++ F) * 10 ^ (s - F.length) : Nat) : Int) := by
+  rw [scaledValue, List.take_of_length_le h]
+
+theorem excessZero_short (s : Nat) (F : Text) (h : F.length ≤ s) : ExcessZero s F := by
+  intro c hc; rw [List.drop_of_length_le h] at hc; simp at hc
+
+theorem trimmedValue_eq (s : Nat) (sg I F : Text) (hl : (trimRight0 F).length ≤ s) :
+    trimmedValue s sg I (trimRight0 F) = scaledValue s sg I F := by
+  rw [trimmedValue, scaledValue, trimRight0_value s I F hl]
+
+/-- `setParts` in terms of the trimmed fraction -/
+theorem setParts_completeT (p s : Nat) {sg I F : Text} (hsg : IsSign sg) (hI : AllDig I) (hF : AllDig F)
+    (hne : I ++ trimRight0 F ≠ []) (hlen : (trimRight0 F).length ≤ s) :
     setParts p s (sg ++ I) F =
-      if (scaledValue s sg I F).natAbs < 10 ^ p then .ok (scaledValue s sg I F) else .err := by
-  have hbig := bigIntSetString_sign hsg (hI.append hF) hne
-  have hv : signVal sg * (ofDigits (I ++ F) : Int) * (10 : Int) ^ (s - F.length) = scaledValue s sg I F := by
-    simp only [scaledValue, Int.natCast_mul, Int.natCast_pow, Int.mul_assoc]; rfl
+      if (trimmedValue s sg I (trimRight0 F)).natAbs < 10 ^ p
+      then .ok (trimmedValue s sg I (trimRight0 F)) else .err := by
+  have hbig := bigIntSetString_sign hsg (hI.append (trimRight0_allDig hF)) hne
+  have hv : signVal sg * (ofDigits (I ++ trimRight0 F) : Int) * (10 : Int) ^ (s - (trimRight0 F).length) =
+      trimmedValue s sg I (trimRight0 F) := by
+    simp only [trimmedValue, Int.natCast_mul, Int.natCast_pow, Int.mul_assoc]; rfl
   simp only [setParts, if_neg (not_any_of_allDig hF), if_neg (Nat.not_lt.2 hlen), List.append_assoc, hbig, hv]
-  by_cases h : (scaledValue s sg I F).natAbs < 10 ^ p
+  by_cases h : (trimmedValue s sg I (trimRight0 F)).natAbs < 10 ^ p
   · simp [h, Nat.not_le.2 h]
   · simp [h, Nat.not_lt.1 h]
 
+/-- **`SetString` after the split, complete**: sign, integer digits `I`, fraction digits `F` with a digit
+to read and only zeros beyond the scale give exactly the scaled value, or the error when it has more
+than `p` digits. -/
+theorem setParts_complete (p s : Nat) {sg I F : Text} (hsg : IsSign sg) (hI : AllDig I) (hF : AllDig F)
+    (hne : HasDigit I F) (hz : ExcessZero s F) :
+    setParts p s (sg ++ I) F =
+      if (scaledValue s sg I F).natAbs < 10 ^ p then .ok (scaledValue s sg I F) else .err := by
+  have hlen := (trimRight0_len_iff s F).2 hz
+  rw [setParts_completeT p s hsg hI hF ((hasDigit_iff I F).2 hne) hlen, trimmedValue_eq s sg I F hlen]
+
 theorem setParts_sound {p s : Nat} {left right : Text} {v : Int} (h : setParts p s left right = .ok v) :
-    AllDig right ∧ right.length ≤ s ∧ ∃ sg I, IsSign sg ∧ left = sg ++ I ∧ AllDig I ∧ I ++ right ≠ [] ∧
+    AllDig right ∧ ExcessZero s right ∧ ∃ sg I, IsSign sg ∧ left = sg ++ I ∧ AllDig I ∧ HasDigit I right ∧
       v = scaledValue s sg I right ∧ v.natAbs < 10 ^ p := by
   unfold setParts at h
   split at h
   · simp at h
   rename_i hany
-  have hR := allDig_of_not_any hany
+  have hR0 := allDig_of_not_any hany
+  have hR := trimRight0_allDig hR0
+  simp only [] at h
   split at h
   · simp at h
   rename_i hlen
+  have hlen' := Nat.not_lt.1 hlen
   split at h
   · simp at h
   rename_i i hbig
   obtain ⟨sg, d, hsg, hl, hd, hdne, hi⟩ := bigIntSetString_sound hbig
-  have hv : i * (10 : Int) ^ (s - right.length) =
-      signVal sg * ((ofDigits d * 10 ^ (s - right.length) : Nat) : Int) := by
+  have hv : i * (10 : Int) ^ (s - (trimRight0 right).length) =
+      signVal sg * ((ofDigits d * 10 ^ (s - (trimRight0 right).length) : Nat) : Int) := by
     rw [hi]; simp only [Int.natCast_mul, Int.natCast_pow, Int.mul_assoc]; rfl
   simp only [hv] at h
   split at h
   · simp at h
   rename_i hfit
   simp only [Res.ok.injEq] at h
-  refine ⟨hR, Nat.not_lt.1 hlen, ?_⟩
-  -- split `d` into the integer digits (rest of `left`) and `right`
-  have key : ∃ I, left = sg ++ I ∧ d = I ++ right := by
+  refine ⟨hR0, (trimRight0_len_iff s right).1 hlen', ?_⟩
+  -- split `d` into the integer digits (rest of `left`) and the trimmed fraction
+  have key : ∃ I, left = sg ++ I ∧ d = I ++ trimRight0 right := by
     rcases hsg with rfl | rfl | rfl
     · exact ⟨left, rfl, by simpa using hl.symm⟩
     · cases left with
@@ -109,9 +171,10 @@ theorem setParts_sound {p s : Nat} {left right : Text} {v : Int} (h : setParts p
         exact ⟨l', by rw [hl.1]; rfl, hl.2.symm⟩
   obtain ⟨I, hleft, hdI⟩ := key
   subst hdI
-  refine ⟨sg, I, hsg, hleft, hd.left, hdne, ?_, ?_⟩
-  · rw [← h]; rfl
-  · rw [← h]; exact Nat.not_le.1 hfit
+  have hval : v = scaledValue s sg I right := by
+    rw [← h, ← trimmedValue_eq s sg I right hlen']; rfl
+  refine ⟨sg, I, hsg, hleft, hd.left, (hasDigit_iff I right).1 hdne, hval, ?_⟩
+  rw [← h]; exact Nat.not_le.1 hfit
 
 theorem sign_mem {sg : Text} (h : IsSign sg) {c : Char} (hc : c ∈ sg) : c = '+' ∨ c = '-' := by
   rcases h with rfl | rfl | rfl <;> simp at hc <;> simp [hc]
@@ -201,13 +264,33 @@ theorem fracText_val (s n : Nat) :
     rw [this, hv]
 
 /-- integer digits and fraction digits of the formatted text, read as one number and scaled back, give `n` -/
-theorem reassemble (s n : Nat) (hs : 1 ≤ s) :
+theorem reassemble1 (s n : Nat) (hs : 1 ≤ s) :
     ofDigits (natDigits (n / 10 ^ s) ++ fracText s n) * 10 ^ (s - (fracText s n).length) = n := by
   have hl := fracText_len s n hs
   have hv := fracText_val s n
   rw [ofDigits_append, ofDigits_natDigits, Nat.add_mul, Nat.mul_assoc, ← Nat.pow_add, hv,
     Nat.add_sub_cancel' hl]
   exact Nat.div_add_mod' n (10 ^ s)
+
+/-- integer digits and the first `s` fraction digits of the formatted text, read as one number and
+scaled back, give `n` — at every scale, also 0 where the printed fraction `"0"` is ignored -/
+theorem reassemble (s n : Nat) :
+    ofDigits (natDigits (n / 10 ^ s) ++ (fracText s n).take s) *
+      10 ^ (s - ((fracText s n).take s).length) = n := by
+  by_cases hs : 1 ≤ s
+  · rw [List.take_of_length_le (fracText_len s n hs)]; exact reassemble1 s n hs
+  · have h0 : s = 0 := by omega
+    subst h0
+    simp [ofDigits_natDigits]
+
+/-- the printed fraction never has a non-zero digit beyond the scale -/
+theorem fracText_excessZero (s n : Nat) : ExcessZero s (fracText s n) := by
+  by_cases hs : 1 ≤ s
+  · exact excessZero_short s _ (fracText_len s n hs)
+  · have h0 : s = 0 := by omega
+    subst h0
+    have : fracText 0 n = ['0'] := rfl
+    rw [this]; decide
 
 theorem negText_sign (i : Int) : IsSign (negText i) := by
   unfold negText; split
@@ -247,11 +330,11 @@ theorem fracText_cross (s n : Nat) :
   · have hs : 10 ^ s = 10 ^ (fracText s n).length * 10 ^ k := by rw [← Nat.pow_add, hk]
     rw [← hv, hs, Nat.mul_assoc, Nat.mul_comm (10 ^ k)]
 
-/-- the inputs `SetString` accepts: numerals with at most `s` fraction digits whose scaled value has at
-most `p` digits -/
+/-- the inputs `SetString` accepts: numerals `[+-] I [. F]` (digits only) with a digit to read
+(`HasDigit`), no non-zero digit beyond the `s`-th fraction digit, and a scaled value of at most `p` digits -/
 def FitsNumeral (p s : Nat) (u : Text) : Prop :=
-  ∃ sg I frac, IsSign sg ∧ AllDig I ∧ AllDig (fracOf frac) ∧ I ++ fracOf frac ≠ [] ∧
-    u = numeralText sg I frac ∧ (fracOf frac).length ≤ s ∧
+  ∃ sg I frac, IsSign sg ∧ AllDig I ∧ AllDig (fracOf frac) ∧ HasDigit I (fracOf frac) ∧
+    u = numeralText sg I frac ∧ ExcessZero s (fracOf frac) ∧
     (scaledValue s sg I (fracOf frac)).natAbs < 10 ^ p
 
 theorem splitOn_length (l : Text) : (splitOn '.' l).length = l.count '.' + 1 := by
